@@ -511,17 +511,27 @@ def check_map_helpers(ctx: Ctx):
         ctx.decide("R15.5", f, f.node, f"{q}:order", "results come back one per item and in item order, whatever the number of worker processes (metrics do not depend on how the work is distributed)", ok, wit)
 
 
-_LIST_MUT = ("append", "extend", "insert", "remove", "pop", "clear", "sort", "reverse")
+_LIST_MUT = ("append", "extend", "insert", "remove", "pop", "clear", "sort", "reverse", "update", "setdefault", "popitem")
+
+
+def _container_ann(ann: str, default=None) -> bool:
+    return ann.startswith(("list", "List", "typing.List", "dict", "Dict", "typing.Dict", "Optional[list", "Optional[dict")) or "list[" in ann or "dict[" in ann or isinstance(default, (ast.List, ast.Dict))
 
 
 def _list_like(p) -> bool:
-    ann = norm(p.annotation) if p.annotation is not None else ""
-    return ann.startswith(("list", "List", "typing.List", "Optional[list", "list |")) or "list[" in ann or isinstance(p.default, ast.List)
+    return _container_ann(norm(p.annotation) if p.annotation is not None else "", p.default)
+
+
+def _dataclass_fields(cls) -> list:
+    """[(name, annotation text)] of a dataclass's fields in declaration order ([] for other classes)"""
+    if not any((dotted(d) or (dotted(d.func) if isinstance(d, ast.Call) else "") or "").split(".")[-1] == "dataclass" for d in cls.node.decorator_list):
+        return []
+    return [(st.target.id, norm(st.annotation)) for st in cls.node.body if isinstance(st, ast.AnnAssign) and isinstance(st.target, ast.Name)]
 
 
 def list_param_writers(prog) -> dict:
-    """{function qual: {parameter name: (site text, site node)}}: list parameters a function modifies in
-    place - by a list method, an augmented assignment, a subscript store - directly, through a local name
+    """{function qual: {parameter name: (site text, site node)}}: list / dict parameters a function modifies in
+    place - by a list method, an augmented assignment, an item store - directly, through a local name (or attribute of self)
     bound to the parameter itself (not to a copy), or by handing it to a parameter another function of
     the package modifies.  Flow-sensitive over straight-line code, union at joins; fixpoint over calls."""
     cache = prog.__dict__.get("_list_param_writers")
@@ -533,6 +543,11 @@ def list_param_writers(prog) -> dict:
     def analyse(f):
         found = {}
         alias0 = {p.name: {p.name} for p in f.call_params if _list_like(p)}
+        if f.name == "__post_init__" and f.cls is not None and f.self_name:
+            # the fields of a dataclass hold the very objects its generated constructor received
+            for fn_, ann in _dataclass_fields(f.cls):
+                if _container_ann(ann):
+                    alias0["self." + fn_] = {fn_}
         if not alias0:
             return found
 
@@ -540,6 +555,8 @@ def list_param_writers(prog) -> dict:
             # the parameters `e` may be (the very object of)
             if isinstance(e, ast.Name):
                 return set(alias.get(e.id, ()))
+            if isinstance(e, ast.Attribute) and isinstance(e.value, ast.Name) and e.value.id == f.self_name:
+                return set(alias.get("self." + e.attr, ()))
             if isinstance(e, ast.IfExp):
                 return origins(e.body, alias) | origins(e.orelse, alias)
             if isinstance(e, ast.NamedExpr):
@@ -556,9 +573,18 @@ def list_param_writers(prog) -> dict:
                     if isinstance(c.func, ast.Attribute) and c.func.attr in _LIST_MUT:
                         hit(c, c.func.value, alias, "." + c.func.attr + "()")
                     for g in prog.resolve_call(f, c) if any(origins(a, alias) for a in list(c.args) + [k.value for k in c.keywords]) else []:
+                        gp = None
+                        if isinstance(g, Class):
+                            # a dataclass: the generated constructor binds the fields, __post_init__ works on them
+                            pi, flds = g.lookup("__post_init__"), _dataclass_fields(g)
+                            if g.lookup("__init__") is None and pi is not None and flds:
+                                class _P:
+                                    def __init__(self, n):
+                                        self.name = n
+                                g, gp = pi, [_P(n) for n, _ in flds]
                         if not isinstance(g, Func) or g.qual == f.qual:
                             continue
-                        gp = g.call_params
+                        gp = gp or g.call_params
                         for pn, (site, _) in written.get(g.qual, {}).items():
                             i = next((k for k, q in enumerate(gp) if q.name == pn), None)
                             actual = None
@@ -576,12 +602,13 @@ def list_param_writers(prog) -> dict:
                 if isinstance(st, ast.Assign):
                     scan(st.value, alias)
                     for t in st.targets:
-                        if isinstance(t, ast.Name):
+                        key = t.id if isinstance(t, ast.Name) else ("self." + t.attr) if (isinstance(t, ast.Attribute) and isinstance(t.value, ast.Name) and t.value.id == f.self_name) else None
+                        if key is not None:
                             o = origins(st.value, alias)
                             if o:
-                                alias[t.id] = o
+                                alias[key] = o
                             else:
-                                alias.pop(t.id, None)
+                                alias.pop(key, None)
                         elif isinstance(t, ast.Subscript):
                             hit(st, t.value, alias, "item store")
                 elif isinstance(st, ast.AugAssign):
@@ -628,6 +655,25 @@ def list_param_writers(prog) -> dict:
             break
     prog.__dict__["_list_param_writers"] = written
     return written
+
+
+def check_ctor_purity(ctx: Ctx):
+    """R15.3 (constructors, whole package): building an object does not modify a list or dict it is given -
+    neither in __init__ nor in a dataclass's __post_init__, directly or through the functions they call.
+    (What is handed in stays the caller's: per-instance score dicts are read again after records are built
+    from them, metric lists are shared between evaluators.)"""
+    prog = ctx.prog
+    written = list_param_writers(prog)
+    n = 0
+    for f in prog.package_functions():
+        if f.parent is not None or f.cls is None or f.name not in ("__init__", "__post_init__"):
+            continue
+        n += 1
+        for pn, (site, node) in sorted(written.get(f.qual, {}).items()):
+            ctx.violated("R15.3", f, node, f"{f.qual}:{pn}:in-place", "a constructor does not modify a list / dict argument in place", {"argument": pn, "modified_at": site})
+    ctx.ok("R15.3", None, None, "constructor-purity:package", f"{n} constructors: none modifies a container argument in place", None, nontrivial=False)
+    if n < 20:
+        ctx.undecided("R15.3.floor", None, None, "floor:R15.3c", f"{n} constructors analysed, confirmed floor is 20")
 
 
 def check_state_through_callees(ctx: Ctx):
@@ -907,6 +953,7 @@ def check(ctx: Ctx):
     _run_rule(ctx, "check_state_writers", check_state_writers)
     _run_rule(ctx, "check_globals", check_globals)
     _run_rule(ctx, "check_state_through_callees", check_state_through_callees)
+    _run_rule(ctx, "check_ctor_purity", check_ctor_purity)
     _run_rule(ctx, "R15.9", check_metric_call_history)
     _guard(ctx, "R15.8", check_param_aliasing)
 
